@@ -12,30 +12,41 @@ Import ListNotations.
 Local Open Scope Z_scope.
 
 Inductive tmsg :=
-| TList (name : str)                       (* rfbFileListRequest *)
+| TList (name : str) (entries : list str)  (* rfbFileListRequest; entries = what readdir() returns *)
 | TDownload (name : str)                   (* rfbFileDownloadRequest *)
 | TUpload (name : str) (creat_ok : bool)   (* rfbFileUploadRequest; creat_ok = result of creat() *)
+| TUploadTrunc (partial : str)             (* rfbFileUploadRequest whose name does not arrive completely *)
 | TUploadData (fails : bool)               (* rfbFileUploadData with data; fails = short write or compressedLevel != 0 *)
 | TUploadDone                              (* rfbFileUploadData with realSize = compressedSize = 0 (+ mtime) *)
 | TUploadFailed (has_reason : bool)        (* rfbFileUploadFailed *)
 | TDownloadCancel                          (* rfbFileDownloadCancel *)
-| TMkdir (name : str).                     (* rfbFileCreateDirRequest *)
+| TMkdir (name : str)                      (* rfbFileCreateDirRequest *)
+| TClose.                                  (* the connection is dropped (by the peer or the server) *)
 
 Inductive tfs :=
 | TStat (p : str) | TOpendir (p : str) | TOpenR (p : str) | TCreat (p : str)
-| TUtime (p : str) | TUnlink (p : str) | TMkdirOp (p : str).
+| TUtime (p : str) | TUnlink (p : str) | TMkdirOp (p : str)
+| TStatEntry (dir name : str)    (* stat(dir "/" name) for an entry of the listed directory *)
+| TOverflow.                     (* strcpy/strcat beyond fullpath[PATH_MAX] in CreateFileListInfo *)
 
 Definition tfs_path (o : tfs) : str :=
-  match o with TStat p | TOpendir p | TOpenR p | TCreat p | TUtime p | TUnlink p | TMkdirOp p => p end.
+  match o with
+  | TStat p | TOpendir p | TOpenR p | TCreat p | TUtime p | TUnlink p | TMkdirOp p => p
+  | TStatEntry d n => d ++ 47 :: n
+  | TOverflow => []
+  end.
 
-(* rtcp->rcft.rcfu.fName (as C string) and uploadInProgress *)
-Record tstate := { up_name : str; up_active : bool }.
-Definition tstate0 : tstate := {| up_name := []; up_active := false |}.
+(* rtcp->rcft.rcfu.fName (as C string), uploadInProgress, and whether the connection is still there *)
+Record tstate := { up_name : str; up_active : bool; t_alive : bool }.
+Definition tstate0 : tstate := {| up_name := []; up_active := false; t_alive := true |}.
 
-(* flags: [f19] = ConvertPath refuses ".." components and names without leading '/' (the tree since
-   9f956a4); [fstale] = the name of a refused upload request is not left behind in fName (the tree
-   since fix commit 7654ac8; false = the flow before it, kept as regression variant) *)
-Record tvariant := { f19 : bool; fstale : bool }.
+(* flags (true = the repaired flow):
+   [f19]     ConvertPath refuses ".." components and names without leading '/'  (tree since 9f956a4)
+   [fstale]  the name of a refused upload request is not left behind in fName  (tree since 7654ac8)
+   [fundone] a new upload request first finishes the undone one (CloseUndoneFileUpload) before its
+             name is read into fName                                           (notes/fix_C19_4.diff)
+   [flist]   CreateFileListInfo skips entries whose full path does not fit     (notes/fix_C19_5.diff) *)
+Record tvariant := { f19 : bool; fstale : bool; fundone : bool; flist : bool }.
 
 Definition conv (v : tvariant) (root name : str) : option str :=
   if f19 v && (has_dotdot_component (cstr name) || negb (starts_with_slash (cstr name))) then None
@@ -45,45 +56,73 @@ Definition len_ok (name : str) : bool := negb ((Zlength name =? 0) || (Zlength n
 
 (* CloseUndoneFileUpload *)
 Definition close_undone (st : tstate) : list tfs * tstate :=
-  if up_active st then ((match up_name st with [] => [] | n => [TUnlink n] end), {| up_name := []; up_active := false |})
+  if up_active st then ((match up_name st with [] => [] | n => [TUnlink n] end),
+                        {| up_name := []; up_active := false; t_alive := t_alive st |})
   else ([], st).
 
-(* one message, the extension being enabled for this client *)
+(* rfbCloseClient: the extension's close hook (rfbTightExtensionClientClose) runs CloseUndoneFileUpload *)
+Definition drop (st : tstate) : list tfs * tstate :=
+  let '(ops, st') := close_undone st in
+  (ops, {| up_name := up_name st'; up_active := up_active st'; t_alive := false |}).
+
+(* bytes that arrived are written over the beginning of what fName held *)
+Definition overlay (partial old : str) : str := partial ++ skipn (length partial) old.
+
+(* the per-entry stat of a listing: "." and ".." are skipped; the full path is built in fullpath[PATH_MAX] *)
+Definition dot_entry (n : str) : bool := list_eqb n [46] || list_eqb n [46; 46].
+Fixpoint entry_ops (v : tvariant) (dir : str) (entries : list str) : list tfs :=
+  match entries with
+  | [] => []
+  | n :: rest =>
+      if dot_entry n then entry_ops v dir rest
+      else if Zlength dir + 1 + Zlength n >=? C19_PATH_MAX then
+        (if flist v then entry_ops v dir rest else [TOverflow])
+      else TStatEntry dir n :: entry_ops v dir rest
+  end.
+
+(* one message, the gate being open for it *)
 Definition tight_step (v : tvariant) (root : str) (st : tstate) (m : tmsg) : list tfs * tstate :=
   match m with
-  | TList n =>
-      if len_ok n then match conv v root n with Some p => ([TOpendir p], st) | None => ([], st) end
+  | TList n entries =>
+      if len_ok n then match conv v root n with Some p => (TOpendir p :: entry_ops v p entries, st) | None => ([], st) end
       else ([], st)
   | TDownload n =>
       if len_ok n then match conv v root n with Some p => ([TStat p; TOpenR p], st) | None => ([], st) end
       else ([], st)
   | TUpload n ok =>
       if len_ok n then
+        let '(pre, st1) := if fundone v then close_undone st else ([], st) in
         (* the name is read straight into rtcp->rcft.rcfu.fName, then converted in place *)
         match conv v root n with
-        | Some p => ([TCreat p], {| up_name := p; up_active := ok |})
-        | None => ([], {| up_name := (if fstale v then [] else cstr n); up_active := up_active st |})
+        | Some p => (pre ++ [TCreat p], {| up_name := p; up_active := ok; t_alive := t_alive st1 |})
+        | None => (pre, {| up_name := (if fstale v then [] else cstr n); up_active := up_active st1; t_alive := t_alive st1 |})
         end
       else ([], st)
+  | TUploadTrunc partial =>
+      let '(pre, st1) := if fundone v then close_undone st else ([], st) in
+      let st2 := {| up_name := cstr (overlay partial (up_name st1)); up_active := up_active st1; t_alive := t_alive st1 |} in
+      let '(ops, st3) := drop st2 in (pre ++ ops, st3)
   | TUploadData fails => if fails then close_undone st else ([], st)
   | TUploadDone =>
-      ((match up_name st with [] => [] | n => [TUtime n] end), {| up_name := up_name st; up_active := false |})
+      ((match up_name st with [] => [] | n => [TUtime n] end), {| up_name := up_name st; up_active := false; t_alive := t_alive st |})
   | TUploadFailed has_reason => if has_reason then close_undone st else ([], st)
   | TDownloadCancel => ([], st)
   | TMkdir n =>
-      if Zlength n >=? C19_PATH_MAX - 1 then ([], st)
+      if Zlength n >=? C19_PATH_MAX - 1 then drop st
       else match conv v root n with Some p => ([TMkdirOp p], st) | None => ([], st) end
+  | TClose => drop st
   end.
 
-(* handleMessage: nothing happens (the client is dropped) unless the extension is registered,
-   switched on and the client is not view-only *)
-Fixpoint tight_run (v : tvariant) (reg en vo : bool) (root : str) (st : tstate) (ms : list tmsg) : list tfs :=
+(* handleMessage, per message: [g] = registered && switched on && not view-only at that moment; with the
+   gate closed the client is dropped (which runs the close hook); a dropped connection handles nothing *)
+Definition tight_step_g (v : tvariant) (root : str) (st : tstate) (gm : bool * tmsg) : list tfs * tstate :=
+  if negb (t_alive st) then ([], st)
+  else if fst gm then tight_step v root st (snd gm) else drop st.
+
+Fixpoint tight_run (v : tvariant) (root : str) (st : tstate) (ms : list (bool * tmsg)) : list tfs :=
   match ms with
   | [] => []
-  | m :: rest =>
-      if tight_gate reg en vo then
-        let '(ops, st') := tight_step v root st m in ops ++ tight_run v reg en vo root st' rest
-      else []
+  | gm :: rest => let '(ops, st') := tight_step_g v root st gm in ops ++ tight_run v root st' rest
   end.
 
 (* the property predicate on a path: root ++ "/" ++ rel, rel never climbing above the root *)
